@@ -51,11 +51,13 @@ ASSUMPTIONS = [
     'the statement: outcomes are recorded, not judged',
     'codepage characters in the control range (00-1F, 7F) may read back either as the glyph of the '
     'table or as the control character; a unicode character that the table assigns to several code '
-    'points may be stored as any of them',
+    'points may be stored as any of them; a single-byte character whose code is also a DBCS lead '
+    'byte is not followed by another character (the byte encoding itself is ambiguous there)',
     'PRINT shows 7 significant digits for singles and 16 for doubles: evaluate() must equal the '
-    'printed number within half a unit of the last digit of either format (the check does not '
-    'decide which of the two formats applies); soft errors (Overflow / Division by zero messages) '
-    'must appear for both or neither',
+    'printed number within ONE unit of the last digit of either format (the number-to-text '
+    'conversion is not correctly rounded in the last place - that is C07\'s subject - and the check '
+    'does not decide which of the two formats applies); soft errors (Overflow / Division by zero '
+    'messages) must appear for both or neither',
     'an undimensioned array set from a list is dimensioned 0..10 as BASIC does (documented in '
     'tests/unit/test_session.py): the list must be the leading block, everything else default',
     'element [i][j] of the nested list is element (base+i, base+j) of the BASIC array',
@@ -92,9 +94,14 @@ def work_int(shard):
     s = H.new_session()
     for v in range(lo, hi):
         for name in ('I%', 'S!', 'D#'):
-            s.set_variable(name, v)
-            got = s.get_variable(name)
+            case = {'name': name, 'value': v}
+            ok, res = _guard(part, 'int/' + name[-1], case, s.set_variable, name, v)
             part.n += 1
+            if not ok:
+                part.violation('int/%s/in-range-refused' % name[-1],
+                               'set_variable(%s, %d) failed: %r' % (name, v, res), case)
+                continue
+            got = s.get_variable(name)
             bad = got != v or (name == 'I%' and type(got) is not int)
             if bad:
                 part.violation('int/%s/%s' % (name[-1], 'negative' if v < 0 else 'non-negative'),
@@ -191,6 +198,7 @@ def work_str_unicode(shard):
     for cp, u in table.items():
         reverse.setdefault(u, set()).add(cp)
     s = _session_cp(cpname)
+    leads = {cp[:1] for cp in table if len(cp) == 2}
     keys = sorted(table)[lo:hi]
     for cp in keys:
         u = table[cp]
@@ -205,7 +213,10 @@ def work_str_unicode(shard):
         control = len(cp) == 1 and (cp[0] < 0x20 or cp[0] == 0x7f)
         case = {'codepage': cpname, 'cp': cp, 'unicode': u}
         kind = 'dbcs' if len(cp) == 2 else ('control' if control else ('ascii' if cp[0] < 0x80 else 'high'))
-        for pre, post in (('', ''), ('a', 'b')):
+        # a single-byte character whose code is also a DBCS lead byte is inherently ambiguous
+        # when a possible trail byte follows: test it alone and after a letter only
+        contexts = (('', ''), ('a', '')) if cp in leads else (('', ''), ('a', 'b'))
+        for pre, post in contexts:
             text = pre + u + post
             ok, _ = _guard(part, 'str/unicode', case, s.set_variable, 'A$', text)
             if not ok:
@@ -303,8 +314,13 @@ def work_float(shard):
                 if s.get_variable(name) != 0:
                     part.violation('float/%s/zero' % name[-1], 'zero reads back %r' % s.get_variable(name), {})
         for x in (1e39, -1e39, 1e300, float('inf'), float('nan'), 1e-40, 5e-324):
-            ok, res = _guard(part, 'float/out-of-range', {'value': repr(x)}, s.set_variable, 'S!', x)
-            part.outcome('float-out-of-range:%s' % ('accepted' if ok else type(res).__name__))
+            # outside the statement: recorded, never judged
+            try:
+                s.set_variable('S!', x)
+                res = 'accepted'
+            except Exception as e:
+                res = type(e).__name__
+            part.outcome('float-out-of-range:%r:%s' % (x, res))
     else:
         nbits = 24 if kind == 'm24' else 53
         pats = patterns(nbits)
@@ -345,8 +361,8 @@ def expr_family(quick):
     out += [f % a for f in NUM_FUNCS for a in atoms]
     out += ['%s %s %s' % (a, o, b) for a in atoms for o in ops for b in atoms]
     # two operators
-    deep_atoms = atoms if quick else NUM_ATOMS_T[:10]
-    deep_ops = ops if quick else BIN_T[:14]
+    deep_atoms = ['0', '-1', '7', '32767', '.5', '.1#'] if quick else NUM_ATOMS_T[:10]
+    deep_ops = ['+', '*', '/', '\\', '^', 'AND', '=', '<'] if quick else BIN_T[:14]
     for a in deep_atoms:
         for b in deep_atoms:
             for c in deep_atoms:
@@ -366,20 +382,21 @@ def expr_family(quick):
             for c in STR_ATOMS]
     out += [f % ('%s + %s' % (a, b)) for f in STR_FUNCS for a in STR_ATOMS for b in STR_ATOMS]
     # mixed types (errors must agree)
-    out += ['1 + "a"', '"a" + 1', 'LEN(1)', 'ABS("a")', '-"a"', 'NOT "a"', '"a" AND 1', '(', '1 +', '']
+    out += ['1 + "a"', '"a" + 1', 'LEN(1)', 'ABS("a")', '-"a"', 'NOT "a"', '"a" AND 1', '(', '1 +']
     return out
 
 
 def _near(p, v):
-    """printed number p equals v within half a unit of the 7th or 16th significant digit."""
+    """printed number p equals v within one unit of the 7th or 16th significant digit."""
     if p == v:
         return True
     if v == 0 or math.isinf(v) or math.isnan(v) or math.isnan(p):
         return False
     mag = math.floor(math.log10(abs(v)))
     for digits in (7, 16):
-        # half a unit of the last digit, with a little slack for the decimal->binary parse of p
-        if abs(Fraction(p) - Fraction(v)) <= Fraction(10) ** (mag - digits + 1) * Fraction(501, 1000):
+        # one unit of the last digit: GW-BASIC's number-to-text conversion (C07) is not
+        # correctly rounded in the last place, e.g. PRINT ATN(-1) shows -.7853982 for -.78539812...
+        if abs(Fraction(p) - Fraction(v)) <= Fraction(10) ** (mag - digits + 1):
             return True
     return False
 
@@ -407,7 +424,8 @@ def check_expr(part, s, text):
             raise
         part.violation('evaluate/host-exception/%s' % H.exc_key(e), 'evaluate(%r) raised %r' % (text, e), case)
         return
-    r = H.run(s, b'PRINT ' + expr)
+    # LOCATE keeps the emulated screen from scrolling (a 10x cost); the captured text is the same
+    r = H.run(s, b'LOCATE 1,1:PRINT ' + expr)
     part.n += 1
     part.traces += 2
     if r.exc is not None:
@@ -420,7 +438,7 @@ def check_expr(part, s, text):
     if r.err is not None or v is None:
         part.classes.add('evaluate/error-%s' % r.err)
         part.outcome('error')
-        if (r.err is None) != (v is None) or (vhard and vhard[-1] != r.err):
+        if (r.err is None) or (v is not None) or not vhard or vhard[-1] != r.err:
             part.violation('evaluate/error-disagrees/%s' % optag,
                            'evaluate(%r) -> %r (errors %r) but PRINT -> error %r, output %r' % (
                                text, v, vhard, r.err, r.out), case)
